@@ -101,6 +101,19 @@ fn part_b(depth: usize, roots_w: usize) -> (explore::Stats, Acc) {
                 }
             }
         }
+        // removing any assertion of the state yields exactly the node without it; removing the last one yields the bare subject
+        if let bind::O::Node(_, so, ao) = bind::observe(e) {
+            let present = e.assertions();
+            for (xi, x) in present.iter().enumerate().take(6) {
+                acc.inc("law_checks");
+                let rest: Vec<bind::O> = ao.iter().enumerate().filter(|(j, _)| *j != xi).map(|(_, y)| y.clone()).collect();
+                let want: Option<bind::O> = if rest.is_empty() { Some((*so).clone()) } else {
+                    match (so.to_model(), rest.iter().map(|y| y.to_model()).collect::<Option<Vec<_>>>()) { (Some(sm), Some(rm)) => Some(bind::expected(&M::Node(Box::new(sm), rm))), _ => None } };
+                if let (Some(want), Ok(r)) = (want, catch(|| e.remove_assertion(x.clone()))) {
+                    if bind::observe(&r) != want { acc.viol(format!("C07|remove|{}", if rest.is_empty() { "last-one-does-not-yield-the-bare-subject" } else { "not-the-node-without-it" }), "removing an assertion does not give the envelope without that assertion", format!("b/{}/remove-assertion{xi}", desc()), json!({"envelope": hex::encode(&b), "after": hex::encode(r.to_cbor_data())})) } else { acc.inc("remove_matches_model") }
+                }
+            }
+        }
         acc.inc("law_checks");
         match catch(|| e.wrap_envelope().unwrap_envelope()) {
             Ok(Ok(r)) => if r.to_cbor_data() != b { acc.viol("C07|wrap-unwrap|differs", "unwrap(wrap(e)) differs from e", format!("b/{}/wrap-unwrap", desc()), json!({"envelope": hex::encode(&b)})) },
